@@ -568,6 +568,26 @@ var ruleCfgG13 = &Rule{
 						}
 						kept = iff.Block().Succs[k]
 					}
+					if kept == nil {
+						// a wrapper that hands the answer (or its negation) to its caller is not a gate site
+						passed := false
+						for _, r := range *call.Referrers() {
+							switch u := r.(type) {
+							case *ssa.Return:
+								passed = true
+							case *ssa.UnOp:
+								for _, r2 := range *u.Referrers() {
+									if _, ok := r2.(*ssa.Return); ok && u.Op == token.NOT {
+										passed = true
+									}
+								}
+							}
+						}
+						if passed {
+							obs = append(obs, Ob{Key: key, Site: c.Pos(call.Pos()), Verdict: OK, Note: "the answer is returned to the caller unchanged (wrapper; its callers are not followed)"})
+							continue
+						}
+					}
 					if kept == nil || len(kept.Preds) != 1 {
 						obs = append(obs, Ob{Key: key, Site: c.Pos(call.Pos()), Verdict: VIOLATION,
 							Note: "the answer of IsNeedHandle is not branched on by itself (or the kept branch can be entered another way): the gate does not decide alone"})
